@@ -15797,6 +15797,7 @@ R_<TG_, TA_>::initialEnter() noexcept {
 
 	RegistryBackUp backup;
 	_core.registry.backup(backup);
+	HFSM2_IF_TRANSITION_HISTORY(TransitionTargets targetsBackup{_core.transitionTargets});
 
 	for (Long s = 0;
 		 s < SUBSTITUTION_LIMIT && _core.requests.count();
@@ -15805,8 +15806,9 @@ R_<TG_, TA_>::initialEnter() noexcept {
 		for (Short i = 0; i < _core.requests.count(); ++i) {
 			const Transition& request = _core.requests[i];
 
+			// index of the request in the history of the whole step, not of this round
 			if (HFSM2_CHECKED(request.destination < STATE_COUNT))
-				applyRequest(control, request, i);
+				applyRequest(control, request, static_cast<Short>(currentTransitions.count() + i));
 		}
 
 		if (_core.registry != backup) {
@@ -15818,17 +15820,21 @@ R_<TG_, TA_>::initialEnter() noexcept {
 			{
 				currentTransitions += pendingTransitions;
 				_core.registry.backup(backup);
+				HFSM2_IF_TRANSITION_HISTORY(targetsBackup = _core.transitionTargets);
 			}
 			else {
 				HFSM2_BREAK();
 
+				HFSM2_IF_TRANSITION_HISTORY(_core.transitionTargets = targetsBackup);
 				_core.registry.restore(backup);
 			}
 
 			pendingTransitions.clear();
 		}
-		else
+		else {
+			HFSM2_IF_TRANSITION_HISTORY(_core.transitionTargets = targetsBackup);
 			_core.requests.clear();
+		}
 	}
 	HFSM2_ASSERT(_core.requests.count() == 0);
 	HFSM2_IF_TRANSITION_HISTORY(_core.previousTransitions = currentTransitions);
@@ -15903,6 +15909,7 @@ R_<TG_, TA_>::processTransitions(TransitionSets& currentTransitions) noexcept {
 
 	RegistryBackUp backup;
 	_core.registry.backup(backup);
+	HFSM2_IF_TRANSITION_HISTORY(TransitionTargets targetsBackup{_core.transitionTargets});
 
 	for (Long s = 0;
 		 s < SUBSTITUTION_LIMIT && _core.requests.count();
@@ -15911,8 +15918,9 @@ R_<TG_, TA_>::processTransitions(TransitionSets& currentTransitions) noexcept {
 		for (Short i = 0; i < _core.requests.count(); ++i) {
 			const Transition& request = _core.requests[i];
 
+			// index of the request in the history of the whole step, not of this round
 			if (HFSM2_CHECKED(request.destination < STATE_COUNT))
-				applyRequest(control, request, i);
+				applyRequest(control, request, static_cast<Short>(currentTransitions.count() + i));
 		}
 
 		if (_core.registry != backup) {
@@ -15924,16 +15932,19 @@ R_<TG_, TA_>::processTransitions(TransitionSets& currentTransitions) noexcept {
 			{
 				currentTransitions += pendingTransitions;
 				_core.registry.backup(backup);
+				HFSM2_IF_TRANSITION_HISTORY(targetsBackup = _core.transitionTargets);
 			}
 			else {
-				HFSM2_IF_TRANSITION_HISTORY(_core.transitionTargets.clear());
+				HFSM2_IF_TRANSITION_HISTORY(_core.transitionTargets = targetsBackup);
 				_core.registry.restore(backup);
 			}
 
 			pendingTransitions.clear();
 		}
-		else
+		else {
+			HFSM2_IF_TRANSITION_HISTORY(_core.transitionTargets = targetsBackup);
 			_core.requests.clear();
+		}
 	}
 	HFSM2_ASSERT(_core.requests.count() == 0);
 
